@@ -379,6 +379,7 @@ class Histogram1D(ObjectWithBinning, HistogramBase):
             weight = float(weight)  # (nor be accumulated in half / single precision)
         if isinstance(value, np.generic):
             value = value.item()  # value**2 of an np.int8 would wrap around as well
+        weight2 = weight**2  # (an absurd weight fails here, before anything is changed)
         self._coerce_dtype(type(weight))
         if self._binning.is_adaptive():
             bin_map = self._binning.force_bin_existence(value)
@@ -397,7 +398,7 @@ class Histogram1D(ObjectWithBinning, HistogramBase):
                 self.overflow += weight
         else:
             # (the square first: if it does not fit, nothing has been changed yet)
-            self._errors2[ixbin] += weight**2
+            self._errors2[ixbin] += weight2
             self._frequencies[ixbin] += weight
             try:
                 self._stats = dataclasses.replace(
